@@ -16,7 +16,7 @@ def mk_dec(c):
     unused = c.eng.alloc("bytearray", items=c.eng.fresh_seq("_unused", "byte", "bytearray"))
     buf = c.eng.alloc("bytearray", items=c.eng.fresh_seq("_buf", "byte", "bytearray"))
     return c.obj("SevenZipDecompressor", "py7zr.compressor", input_size=c.int("input_size"), consumed=c.int("consumed"), block_size=c.int("block_size"),
-                 _unused=unused, _buf=buf, _pos=c.int("_pos"), digest=c.int("digest"), chain=c.opq("chain"), _unpacked=c.opq("_unpacked"), _unpacksizes=c.opq("_unpacksizes"), crc=c.opq("crc"))
+                 _unused=unused, _buf=buf, _pos=c.int("_pos"), digest=c.int("digest"), produced=c.int("produced"), chain=c.opq("chain"), _unpacked=c.opq("_unpacked"), _unpacksizes=c.opq("_unpacksizes"), crc=c.opq("crc"))
 
 
 def pending(snap, d):
@@ -112,7 +112,7 @@ class Decompress(Contract):
         return [RaiseSpec("EOFError"), RaiseSpec("Exception")]
 
     def modifies(self, c, self_, fp, max_length):
-        return [(self_, "consumed"), (self_, "_pos"), (self_, "digest"), (self_, "_buf"), (self_, "_unused"), (fp, "pos")]
+        return [(self_, "consumed"), (self_, "_pos"), (self_, "digest"), (self_, "produced"), (self_, "_buf"), (self_, "_unused"), (fp, "pos")]
 
     def fresh_result(self, c, self_, fp, max_length):
         return c.bytes("delivered")
@@ -132,6 +132,8 @@ class Decompress(Contract):
             ("at-most-max-length", Implies(max_length >= 0, L(result) <= max_length)),
             ("delivers-from-the-buffer-first", Implies(And(max_length >= 0, L(p0) >= max_length), eq(result, slice_(p0, 0, max_length)))),
             ("crc-covers-the-delivered-bytes", c.f(self_, "digest") == CRC.crc(result, old.f(self_, "digest"))),
+            # the count Worker.decompress compares with the folder's unpack size before trusting the folder CRC (FX23)
+            ("produced-counts-the-delivered-bytes", c.f(self_, "produced") == old.f(self_, "produced") + L(result)),
             ("unused-input-cleared", Implies(Or(max_length < 0, L(p0) < max_length), L(c.f(self_, "_unused")) == 0)),
         ] + [("inv." + l, f) for l, f in dec_inv(c, self_)]
         return out
